@@ -12,6 +12,11 @@ proof side    : Props/C07.lean (findSpan_some_correct, findSpan_unique, basis_su
                 `basis` array: gen_nu_eval_vector_eq / gen_cu_eval_vector_eq (for every k < len(x) the vector function writes exactly
                 what the generated scalar evaluation returns at x[k], nothing beyond, der in {0,1}), gen_nu_eval_vector_total,
                 gen_cu_eval_vector_model (= the models), gen_*_other_der (der not in {0,1}: y untouched))
+                Props/C07Gen5.lean (tie by translation of the 2-D SCALAR kernels nu_eval_spline_2d_scalar / cu_eval_spline_2d_scalar,
+                Generated/Eval2DGen.lean regenerated on every run: local block theCoeffs = empty((n, m)), the whole-array assignment from
+                the slice of coeffs with numpy's shape check, contraction loops; gen_eval_spline_2d_eq/_model/_total (generated =
+                BSpline.evalSpline2D, all (der1,der2), guard deg <= span), gen_cu_eval_spline_2d_eq (= CubicUniform.cuEvalSpline2D with
+                trunc := pyInt, guard deg1 = deg2 = 3), gen_cu_eval_2d_eq_general_path)
 correspondence: every public entry point of pygyro/splines (Spline1D.eval scalar/array, eval_vector, BSplines[i],
                 Spline2D.eval scalar/cross, eval_vector, all (der1,der2)) and the raw nu_* / cu_* kernels, against the
                 exact-rational Lean models (Drivers/C07.lean); floats compared through common.close with the running
@@ -306,6 +311,22 @@ def check_1d(chk, drv, sp, rng, nrand):
         ys_a = guarded(chk, 'Spline1D.eval(array)', case0, lambda: s.eval(xs.copy(), der))
         if ys_a is not None:
             held.append((der, ys_a, np.array(ys_a, copy=True)))
+        # the points given as a list / an array of whole numbers / single-precision numbers (finding F22): the values are the spline's
+        # values all the same (compared with the scalar entry point, which is compared with the model above)
+        lo_i, hi_i = int(np.ceil(sp.a)), int(np.floor(sp.bnd))
+        if hi_i - lo_i >= 1:
+            xi = np.arange(lo_i, hi_i + 1)
+            want = [float(s.eval(float(v), der)) for v in xi]
+            for tag_, pts in (('int64 array', xi), ('list of int', [int(v) for v in xi]), ('float32 array', xi.astype(np.float32))):
+                got_ = guarded(chk, 'Spline1D.eval(array)', dict(case0, points=tag_), lambda: s.eval(pts, der))
+                if got_ is None:
+                    continue
+                tol_ = ORACLE_RTOL * sp.oscale(cmax, der)
+                if np.shape(got_) != (len(xi),) or not all(abs(float(np.real(g_)) - w_) <= tol_ for g_, w_ in zip(np.ravel(got_), want)):
+                    chk.fail('C07:points-dtype', 'Spline1D.eval(points, der=%d) with the points given as %s differs from the spline at those points'
+                             % (der, tag_), dict(case0, points=tag_, xs=[int(v) for v in xi]), expected=want, actual=[float(np.real(g_)) for g_ in np.ravel(got_)])
+                    break
+            chk.count('1-D evaluation with integer / list / float32 points')
         if der == 1:
             for hd, arr, snap in held:
                 if not np.array_equal(np.asarray(arr), snap, equal_nan=True):
@@ -845,7 +866,9 @@ def run(chk):
     common.run_translator(chk, 'translate_pure.py', '--only', 'cueval')
     # Props/C07Gen4.lean: the vector entry points (Generated/EvalVectorGen.lean), tied to the generated scalar kernels above
     common.run_translator(chk, 'translate_pure.py', '--only', 'evalvec')
-    chk.proof_side(build=not getattr(chk, 'no_build', False), extra_props=('C07Gen', 'C07Gen2', 'C07Gen3', 'C07Gen4'))
+    # Props/C07Gen5.lean: the 2-D scalar kernels (Generated/Eval2DGen.lean), calling the generated 1-D kernels above
+    common.run_translator(chk, 'translate_pure.py', '--only', 'eval2d')
+    chk.proof_side(build=not getattr(chk, 'no_build', False), extra_props=('C07Gen', 'C07Gen2', 'C07Gen3', 'C07Gen4', 'C07Gen5'))
     drv = common.LeanDriver('C07.lean')
     rng = chk.rng
     try:
